@@ -24,6 +24,7 @@ func checkC13(p *Prog, res *Result, tier string) {
 	res.rule("C13-R5", "adjusted borders stay contiguous: start(i) = end(i-1) of the adjusted slice, end not modified after propagation", 2)
 	res.rule("C13-R6", "each scan attempt resets the receiver; accumulating receivers implement their own reset", 3)
 	res.rule("C13-R8", "on the scan path the error of the engine iterator, of a partition worker and of the retry loop is returned (as is or wrapped) unless found nil or classified: a failed partition fails the read", 6)
+	res.rule("C13-R10", "a batch handed to the stream is not written by the receiver afterwards (C05-R9): a refilled batch loses and repeats keys depending on how many fit a partition", 1)
 	res.rule("C13-R7", "engine partitions are clamped into the requested interval (C11-R7)", 3)
 	res.rule("C13-R9", "a partition border of the engine is advertised to clients (who stream every [border, next border) as a scan of its own) only as the first start / the last end, when it is not a version key, or re-encoded as the index key of the key it splits", 2)
 
@@ -563,6 +564,14 @@ func checkC13(p *Prog, res *Result, tier string) {
 	checkBorderContiguity(p, r, res, sp)
 	// ---- R9 ----
 	checkAdvertisedBorders(p, r, res, "C13-R9")
+	// ---- R10: a streamed batch is not refilled after it was sent (C05-R9) ----
+	{
+		sub5 := newResult("C05")
+		checkHandOffAliasing(p, sub5, "C05-R9", "pkg/backend/scanner")
+		for _, o := range sub5.Obls {
+			res.add("C13-R10", o.Rule+" "+o.Construct, o.Status, o.Pos, o.Detail)
+		}
+	}
 
 	// ---- R6 ----
 	// (a) the function creating the engine iterator resets the receiver before any append
